@@ -68,4 +68,7 @@ PROPS = {
                 gens=[(["chain"], "random", 1.0), (["chain"], "fair", 0.4), (["chain"], "stuck", 0.2),
                       (["chain"], "panic", 0.2), (["chain"], "big", 0.08)],
                 assumptions=COMMON_ASSUME),
+    "C17": dict(monitor="C17", proj="FUN", cfgs=ALL3, quick=2500, thorough=30000,
+                gens=[(["merge"], "fair", 1.0), (["merge"], "random", 0.5), (["merge"], "stuck", 0.2)],
+                assumptions=COMMON_ASSUME),
 }
